@@ -48,6 +48,8 @@ decompress_size!(c08_raw16_2x2_n7, 2, 2, 7, 16, false, 12);
 decompress_size!(c08_raw16_2x2_n0, 2, 2, 0, 16, false, 12);
 decompress_size!(c08_raw16_1x3_n9, 1, 3, 9, 16, false, 12);
 decompress_size!(c08_raw16_0x0_n2, 0, 0, 2, 16, false, 6);
+decompress_size!(c08_raw16_1x1_n2, 1, 1, 2, 16, false, 6);
+decompress_size!(c08_raw16_3x1_n6, 3, 1, 6, 16, false, 10);
 // planar RLE through the dispatcher
 
 /// planar RLE through the dispatcher: 2x2, segmentation raw2/raw2 per plane
